@@ -53,9 +53,31 @@ type nsImpl interface {
 	contains(q uint32) bool
 	ranges() [][2]uint32
 	nums() ([]uint32, bool)
+	// argsChanged reports an argument of an earlier AddSet whose value has changed since
+	// (the receiver must not alias the sets that were added to it)
+	argsChanged() string
 }
 
-type implNum struct{ s shim.NumSet }
+// argKeeper remembers the sets passed to AddSet and their text at that moment.
+type argKeeper struct {
+	cur  []func() string
+	want []string
+}
+
+func (k *argKeeper) keep(f func() string) { k.cur = append(k.cur, f); k.want = append(k.want, f()) }
+func (k *argKeeper) argsChanged() string {
+	for i, f := range k.cur {
+		if got := f(); got != k.want[i] {
+			return fmt.Sprintf("the set %q passed to AddSet earlier now reads %q", k.want[i], got)
+		}
+	}
+	return ""
+}
+
+type implNum struct {
+	s shim.NumSet
+	argKeeper
+}
 
 func (i *implNum) apply(o nsOp) {
 	switch o.Kind {
@@ -69,6 +91,7 @@ func (i *implNum) apply(o nsOp) {
 			t = append(t, shim.NumRange{Start: r[0], Stop: r[1]})
 		}
 		i.s.AddSet(t)
+		i.keep(func() string { return t.String() })
 	}
 }
 func (i *implNum) str() string            { return i.s.String() }
@@ -82,7 +105,10 @@ func (i *implNum) ranges() (out [][2]uint32) {
 	return
 }
 
-type implSeq struct{ s imap.SeqSet }
+type implSeq struct {
+	s imap.SeqSet
+	argKeeper
+}
 
 func (i *implSeq) apply(o nsOp) {
 	switch o.Kind {
@@ -96,6 +122,7 @@ func (i *implSeq) apply(o nsOp) {
 			t = append(t, imap.SeqRange{Start: r[0], Stop: r[1]})
 		}
 		i.s.AddSet(t)
+		i.keep(func() string { return t.String() })
 	}
 }
 func (i *implSeq) str() string            { return i.s.String() }
@@ -109,7 +136,10 @@ func (i *implSeq) ranges() (out [][2]uint32) {
 	return
 }
 
-type implUID struct{ s imap.UIDSet }
+type implUID struct {
+	s imap.UIDSet
+	argKeeper
+}
 
 func (i *implUID) apply(o nsOp) {
 	switch o.Kind {
@@ -123,6 +153,7 @@ func (i *implUID) apply(o nsOp) {
 			t = append(t, imap.UIDRange{Start: imap.UID(r[0]), Stop: imap.UID(r[1])})
 		}
 		i.s.AddSet(t)
+		i.keep(func() string { return t.String() })
 	}
 }
 func (i *implUID) str() string            { return i.s.String() }
@@ -412,6 +443,9 @@ func (r *c15Run) runOps(flavour int, ops []nsOp, src string) {
 		if msg := canonical(st.Ranges); msg != "" {
 			h.Fail("canon:"+msg, "set not canonical after insertions: "+msg, desc)
 		}
+		if msg := im.argsChanged(); msg != "" {
+			h.Fail("argument-aliased", "an insertion into the receiver changed another set: "+msg, desc)
+		}
 		star := false
 		for _, p := range ops[:i+1] {
 			if p.member(0) {
@@ -656,6 +690,7 @@ func runC15(h *H) {
 	for _, ops := range corpus {
 		for f := range flavourName {
 			r.runOps(f, ops, "corpus")
+			r.runOps(f, []nsOp{{Kind: "set", Set: [][2]uint32{{1, 3}, {10, 10}}}, {Kind: "num", A: 4}, {Kind: "num", A: 9}, {Kind: "range", A: 2, B: 12}}, "corpus")
 		}
 	}
 	// 2. exhaustive small scope
@@ -692,8 +727,29 @@ func runC15(h *H) {
 	// 4. parser
 	for _, t := range []string{"", "*", "1", "0", "01", "1:", ":1", "1,,2", "1,", ",1", "4294967295", "4294967296", "99999999999999999999",
 		"4294967295:*", "*:4294967295", "*:*", "3:1", "1:2:3", "1:2,2:3,10", "+1", "-1", "1_0", " 1", "1 ", "1:*,*", "$", "1:4294967295",
-		"2,4:7,9,12:*", "*:4,5:7", "1:0", "0:1", "1,2,3,4,5", "5,4,3,2,1", "1:3,2:4", "4294967294:4294967295,1"} {
+		"2,4:7,9,12:*", "*:4,5:7", "1:0", "0:1", "1,2,3,4,5", "5,4,3,2,1", "1:3,2:4", "4294967294:4294967295,1",
+		"5000000000", "1:5000000000", "4772185884", "8589934591", "8589934592", "9544371768", "9999999999", "4294967297", "42949672950", "18446744073709551616", "18446744073709551617"} {
 		r.runParse(t, "corpus")
+	}
+	// numbers beyond 2^32-1 of every length (an overflow check that wraps would accept some)
+	for i := 0; i < h.Pick(400, 6000); i++ {
+		var v uint64
+		switch h.Rng.Intn(3) {
+		case 0:
+			v = 4294967296 + uint64(h.Rng.Int63n(10000000000-4294967296))
+		case 1:
+			v = uint64(h.Rng.Int63n(1 << 62))
+		default:
+			v = 4294967296*uint64(1+h.Rng.Intn(9)) + uint64(h.Rng.Intn(1000))
+		}
+		t := strconv.FormatUint(v, 10)
+		switch h.Rng.Intn(3) {
+		case 1:
+			t = "1:" + t
+		case 2:
+			t = t + ":*"
+		}
+		r.runParse(t, "overflow")
 	}
 	alpha := []byte("019:,*")
 	plen := h.Pick(4, 6)
